@@ -90,7 +90,7 @@ def strat_case(maxn):
     return Case("authenticate<=%d" % maxn, fn,
                 ["raises-AuthFailure-iff-no-success", "sources-tried-in-order-stop-at-first-success",
                  "result-lists-each-attempted-source", "each-outcome-reported"],
-                {"sources": "0..%d" % maxn, "outcomes_per_source": OUTCOMES})
+                {"sources": "0..%d" % maxn, "outcomes_per_source": OUTCOMES}, max_paths=60000, wall_s=900)
 
 
 def cases(tier):
